@@ -12,7 +12,7 @@ EXTENDS Common, Json
 
 CONSTANTS MaxMentions,
           ShapeIdx,       \* which of the mention shapes below are generated
-          Wrapper         \* "none": the element is x;  "label-inp": the element is the snippet inp inside a label - the definition
+          Wrapper         \* "none": the element is x;  "digit-name": the element is x1 (its name ends in a digit);  "label-inp": the element is the snippet inp inside a label - the definition
                           \* input[type=${1:text}] + [name=${1} id=${1}] brings attributes of its own and the label addon (on by
                           \* default) removes the snippet's empty id, never the id the user wrote
 
@@ -46,7 +46,9 @@ Shapes == <<
   [s |-> "[h.=y]",       nm |-> "h",        val |-> "y",    vt |-> "raw",  b |-> TRUE,  im |-> FALSE],
   [s |-> "[k=1 t=z]",    nm |-> "k",        val |-> "1",    vt |-> "raw",  b |-> FALSE, im |-> FALSE],
   [s |-> "[u k=\"2\"]",   nm |-> "u",        val |-> NONE,   vt |-> "raw",  b |-> FALSE, im |-> FALSE],
-  [s |-> "[for.]",       nm |-> "for",      val |-> NONE,   vt |-> "raw",  b |-> TRUE,  im |-> FALSE] >>
+  [s |-> "[for.]",       nm |-> "for",      val |-> NONE,   vt |-> "raw",  b |-> TRUE,  im |-> FALSE],
+  [s |-> ".2x",          nm |-> "class",    val |-> "2x",   vt |-> "raw",  b |-> FALSE, im |-> FALSE],       \* a class name that starts with a digit
+  [s |-> "#3d",          nm |-> "id",       val |-> "3d",   vt |-> "raw",  b |-> FALSE, im |-> FALSE] >>
 (* a set may hold a second attribute: index of the shape -> the second attribute of that set *)
 Second(k) == IF k = 26 THEN <<[s |-> "", nm |-> "t", val |-> "z", vt |-> "raw", b |-> FALSE, im |-> FALSE]>>
              ELSE IF k = 27 THEN <<[s |-> "", nm |-> "k", val |-> "2", vt |-> "dq", b |-> FALSE, im |-> FALSE]>>
@@ -61,9 +63,9 @@ PrefixM == IF Wrapper = "label-inp"
            THEN << [s |-> "", nm |-> "type", val |-> "text", vt |-> "raw", b |-> FALSE, im |-> FALSE],
                    [s |-> "", nm |-> "name", val |-> "",     vt |-> "raw", b |-> FALSE, im |-> FALSE] >>      \* id=${1}: removed by the addon
            ELSE <<>>
-Init == /\ abbr = (IF Wrapper = "label-inp" THEN "label>inp" ELSE "x") /\ mentions = <<>>
+Init == /\ abbr = (IF Wrapper = "label-inp" THEN "label>inp" ELSE IF Wrapper = "digit-name" THEN "x1" ELSE "x") /\ mentions = <<>>
         /\ merged = [i \in 1..Len(PrefixM) |-> [nm |-> PrefixM[i].nm, val |-> PrefixM[i].val, vt |-> PrefixM[i].vt, b |-> FALSE, im |-> FALSE]]
-        /\ reverse \in (IF Wrapper = "none" THEN BOOLEAN ELSE {FALSE}) /\ rep = 1
+        /\ reverse \in (IF Wrapper = "label-inp" THEN {FALSE} ELSE BOOLEAN) /\ rep = 1
 
 Find(lst, nm) == IF \E i \in 1..Len(lst) : lst[i].nm = nm THEN CHOOSE i \in 1..Len(lst) : lst[i].nm = nm ELSE 0
 JoinVal(a, b) == IF a = NONE THEN b ELSE IF b = NONE THEN a ELSE IF a = "" THEN b ELSE a \o " " \o b
@@ -81,7 +83,7 @@ Mention == /\ Len(mentions) < MaxMentions /\ rep = 1
                 /\ mentions' = Append(mentions, k)
                 /\ merged' = IF Second(k) = <<>> THEN MergeStep(merged, Shapes[k]) ELSE MergeStep(MergeStep(merged, Shapes[k]), Second(k)[1])
            /\ UNCHANGED <<reverse, rep>>
-Repeat2 == /\ Wrapper = "none" /\ rep = 1 /\ Len(mentions) >= 1 /\ rep' = 2 /\ abbr' = abbr \o "*2" /\ UNCHANGED <<mentions, merged, reverse>>
+Repeat2 == /\ Wrapper # "label-inp" /\ rep = 1 /\ Len(mentions) >= 1 /\ rep' = 2 /\ abbr' = abbr \o "*2" /\ UNCHANGED <<mentions, merged, reverse>>
 Next == Mention \/ Repeat2
 Spec == Init /\ [][Next]_vars
 
@@ -151,6 +153,6 @@ EmitInv == \A r \in 1..Len(Rows) :
               LET e == Emit(merged, Rows[r]) IN \A i, j \in 1..Len(e) : e[i].n = e[j].n => i = j
 
 Dump == Len(mentions) >= 1 =>
-          PrintT(<<"VEC", ToJson([abbr |-> abbr, reverse |-> reverse, silent |-> Silent, rep |-> rep, el |-> IF Wrapper = "label-inp" THEN "input" ELSE "x",
+          PrintT(<<"VEC", ToJson([abbr |-> abbr, reverse |-> reverse, silent |-> Silent, rep |-> rep, el |-> IF Wrapper = "label-inp" THEN "input" ELSE IF Wrapper = "digit-name" THEN "x1" ELSE "x",
                                    rows |-> [r \in 1..Len(Rows) |-> [row |-> Rows[r], attrs |-> Emit(merged, Rows[r])]]])>>)
 =============================================================================
